@@ -79,6 +79,10 @@ def dump_snippet(info, tag):
     for name, body in info['macros']:
         o.append('#ifdef %s' % name)
         o.append('  P("%s", "%s", (long long)(%s));' % (info['header'], name, name))
+        if name not in info.get('notype', ()):
+            # the macro's type (size and signedness of the expression): a value that keeps its number but changes from int to an
+            # unsigned enumeration type changes the meaning of comparisons and arithmetic written with it
+            o.append('  P("%s", "%s__type", (long long)(sizeof(%s) * 2 + ((__typeof__(%s))-1 < 0)));' % (info['header'], name, name, name))
         o.append('#else')
         o.append('  printf("%s|%s|undefined\\n");' % (info['header'], name))
         o.append('#endif')
@@ -160,6 +164,10 @@ def norm_diag(se):
     return 'compiler failed'
 
 
+import itertools
+_serial = itertools.count()
+
+
 class Runner:
     def __init__(self, repo, workdir, libobjs):
         self.repo, self.work, self.libobjs = repo, workdir, libobjs
@@ -171,7 +179,8 @@ class Runner:
         compiles the dump; names whose dump line does not compile (not an integer constant expression here) are dropped and
         returned in `dropped` (the caller compares that with the header alone).  Step 3 links the dump with a second
         translation unit that includes the same headers (a definition leaking from a header breaks the link)."""
-        tag = hashlib.sha1(('+'.join(headers) + lang).encode()).hexdigest()[:16]
+        # unique per call: the same header list may be scheduled twice (coupled triple that is also sampled) and run concurrently
+        tag = hashlib.sha1(('+'.join(headers) + lang).encode()).hexdigest()[:12] + '_%d' % next(_serial)
         ext = 'c' if lang == 'c' else 'cpp'
         src = os.path.join(self.work, 'tu_%s.%s' % (tag, ext))
         src2 = os.path.join(self.work, 'tu2_%s.%s' % (tag, ext))
@@ -210,7 +219,8 @@ class Runner:
             if not bad:
                 return 'compile-error', 'dump code does not compile: ' + norm_diag(se), se[:1500]
             dropped |= bad
-            cur = {h: dict(i, macros=[x for x in i['macros'] if (h, x[0]) not in dropped], enums=[x for x in i['enums'] if (h, x) not in dropped])
+            cur = {h: dict(i, macros=[x for x in i['macros'] if (h, x[0]) not in dropped], enums=[x for x in i['enums'] if (h, x) not in dropped],
+                           notype=set(i.get('notype', ())) | {n[:-6] for (hh, n) in dropped if hh == h and n.endswith('__type')})
                    for h, i in cur.items()}
         else:
             return 'compile-error', 'dump code does not compile', se[:1500]
